@@ -45,30 +45,30 @@ import (
 
 // Rule names, in the order of graphql.SpecifiedRules (without the "Rule" suffix).
 const (
-	ArgumentsOfCorrectType        = "ArgumentsOfCorrectType"
-	DefaultValuesOfCorrectType    = "DefaultValuesOfCorrectType"
-	FieldsOnCorrectType           = "FieldsOnCorrectType"
-	FragmentsOnCompositeTypes     = "FragmentsOnCompositeTypes"
-	KnownArgumentNames            = "KnownArgumentNames"
-	KnownDirectives               = "KnownDirectives"
-	KnownFragmentNames            = "KnownFragmentNames"
-	KnownTypeNames                = "KnownTypeNames"
-	LoneAnonymousOperation        = "LoneAnonymousOperation"
-	NoFragmentCycles              = "NoFragmentCycles"
-	NoUndefinedVariables          = "NoUndefinedVariables"
-	NoUnusedFragments             = "NoUnusedFragments"
-	NoUnusedVariables             = "NoUnusedVariables"
-	OverlappingFieldsCanBeMerged  = "OverlappingFieldsCanBeMerged"
-	PossibleFragmentSpreads       = "PossibleFragmentSpreads"
-	ProvidedNonNullArguments      = "ProvidedNonNullArguments"
-	ScalarLeafs                   = "ScalarLeafs"
-	UniqueArgumentNames           = "UniqueArgumentNames"
-	UniqueFragmentNames           = "UniqueFragmentNames"
-	UniqueInputFieldNames         = "UniqueInputFieldNames"
-	UniqueOperationNames          = "UniqueOperationNames"
-	UniqueVariableNames           = "UniqueVariableNames"
-	VariablesAreInputTypes        = "VariablesAreInputTypes"
-	VariablesInAllowedPosition    = "VariablesInAllowedPosition"
+	ArgumentsOfCorrectType       = "ArgumentsOfCorrectType"
+	DefaultValuesOfCorrectType   = "DefaultValuesOfCorrectType"
+	FieldsOnCorrectType          = "FieldsOnCorrectType"
+	FragmentsOnCompositeTypes    = "FragmentsOnCompositeTypes"
+	KnownArgumentNames           = "KnownArgumentNames"
+	KnownDirectives              = "KnownDirectives"
+	KnownFragmentNames           = "KnownFragmentNames"
+	KnownTypeNames               = "KnownTypeNames"
+	LoneAnonymousOperation       = "LoneAnonymousOperation"
+	NoFragmentCycles             = "NoFragmentCycles"
+	NoUndefinedVariables         = "NoUndefinedVariables"
+	NoUnusedFragments            = "NoUnusedFragments"
+	NoUnusedVariables            = "NoUnusedVariables"
+	OverlappingFieldsCanBeMerged = "OverlappingFieldsCanBeMerged"
+	PossibleFragmentSpreads      = "PossibleFragmentSpreads"
+	ProvidedNonNullArguments     = "ProvidedNonNullArguments"
+	ScalarLeafs                  = "ScalarLeafs"
+	UniqueArgumentNames          = "UniqueArgumentNames"
+	UniqueFragmentNames          = "UniqueFragmentNames"
+	UniqueInputFieldNames        = "UniqueInputFieldNames"
+	UniqueOperationNames         = "UniqueOperationNames"
+	UniqueVariableNames          = "UniqueVariableNames"
+	VariablesAreInputTypes       = "VariablesAreInputTypes"
+	VariablesInAllowedPosition   = "VariablesInAllowedPosition"
 )
 
 // Rules lists the 24 rule names in the order of graphql.SpecifiedRules.
